@@ -30,6 +30,7 @@ package contexttags
 //@ method (*withContext).SafeDetails
 //@   props C11 C12 C03
 //@   ensures self.redactedTags != nil ==> result == self.redactedTags
+//@   ensures[C12] self.redactedTags == nil ==> len(result) == len(tagsOf(self.tags))
 //@   ensures[C03] safeSeq(result)
 
 // C03: the redacted tag strings received from the wire are the reportable payload of the peer's
